@@ -87,7 +87,10 @@ pub fn hash_cases(bin : &str, base : &str, thorough : bool, seed : u64) -> Vec<V
         {
             let full = format!("{}/odd", dir);
             let _ = fs::remove_dir_all(&full); fs::create_dir_all(&full).unwrap();
-            for (n, c) in ents.iter() { fs::write(std::path::Path::new(&full).join(std::ffi::OsStr::from_bytes(n)), c).unwrap(); }
+            /* a file system that refuses such names: no record */
+            let mut made = true;
+            for (n, c) in ents.iter() { if fs::write(std::path::Path::new(&full).join(std::ffi::OsStr::from_bytes(n)), c).is_err() { made = false; } }
+            if !made { let _ = fs::remove_dir_all(&full); hashed.clear(); break; }
             let o = ruler_hash(bin, &dir, "odd");
             hashed.push((json!(ents.iter().map(|(n, c)| node(n, c)).collect::<Vec<Value>>()), o));
             let _ = fs::remove_dir_all(&full);
